@@ -273,7 +273,7 @@ impl SauceData {
             data.len() - SAUCE_LEN
         };
 
-        let offset = len - 1; // -1 is from the EOF char
+        let offset = len.saturating_sub(1); // -1 is from the EOF char (there is none when the file starts with the SAUCE data)
 
         Ok(Some(SauceData {
             title,
